@@ -42,20 +42,36 @@ def _labels(classes):
     return lab
 
 
+def _key_rules(r):
+    """the decomposition rules whose (parent, children, shifts) the productivity analysis sees:
+    an equivalence rule stands for its original rule (all children, the empty ones become
+    verified leaves), an equivalence path for each of its steps"""
+    from comb_spec_searcher.strategies.rule import EquivalencePathRule, EquivalenceRule
+
+    if isinstance(r, EquivalencePathRule):
+        for x in r.rules:
+            yield from _key_rules(x)
+    elif isinstance(r, EquivalenceRule) and len(r.shifts()) != len(r.children):
+        yield from _key_rules(r.original_rule)
+    else:
+        yield r
+
+
 def _spec_keys(rules):
+    krules = [k for r in rules for k in _key_rules(r)]
     classes = []
-    for r in rules:
+    for r in krules:
         classes.append(r.comb_class)
         classes.extend(r.children)
     lab = _labels(classes)
     keys = []
-    lhs = {r.comb_class for r in rules}
-    for r in rules:
+    lhs = {r.comb_class for r in krules}
+    for r in krules:
         keys.append([lab[r.comb_class], [[lab[c], s] for c, s in zip(r.children, r.shifts())]])
     # empty classes get their rule lazily (CombinatorialSpecification.get_rule adds an
     # EmptyStrategy rule): they count as verified leaves, as in RuleDBForest._add_empty_rule
     done = set()
-    for r in rules:
+    for r in krules:
         for c in r.children:
             if c not in lhs and c not in done and c.is_empty():
                 done.add(c)
@@ -66,7 +82,8 @@ def _spec_keys(rules):
 def impl(case):
     res = runs.search(case)
     css = res["css"]
-    out = {"found": res["rules"] is not None, "extract": None, "speckeys": [], "problems": []}
+    out = {"found": res["rules"] is not None, "extract": None, "speckeys": [], "problems": [],
+           "extraction_error": res.get("error")}
     ext_out = [9, [], 0, 0]
     if res["extractor"] is not None:
         ex = res["extractor"]
@@ -86,7 +103,15 @@ def impl(case):
     pumps_out = []
     if res["rules"] is not None:
         rules = res["rules"]
-        keys, lab = _spec_keys(rules)
+        try:
+            keys, lab = _spec_keys(rules)
+        except Exception:  # pylint: disable=broad-except
+            # table strategies read shifts from their own table and cannot answer for the
+            # derived forms (equivalence of a reverse rule); no productivity verdict then
+            if case["kind"] != "table":
+                raise
+            keys, lab = [], {}
+            out["keys_error"] = True
         out["speckeys"] = keys
         from comb_spec_searcher.rule_db.forest import TableMethod
         from comb_spec_searcher.typing import ForestRuleKey, RuleBucket
@@ -104,7 +129,7 @@ def impl(case):
                 if c not in lhs and not c.is_empty():
                     missing.append(str(c))
         out["missing_rule_for"] = missing
-        out["root_has_rule"] = css.start_class in lhs
+        out["root_has_rule"] = css.start_class in lhs or css.start_class.is_empty()
         notgen = []
         for r in rules:
             for b in _base_rules(r):
@@ -138,7 +163,7 @@ def _base_rules(r):
 def encode_with(case, res):
     ext = res.get("extract")
     if ext is None:
-        ext = [0, [], [], [], [], []]
+        ext = []
     return [ext, res.get("speckeys", [])]
 
 
@@ -210,6 +235,8 @@ def classify(case, res):
     if case["kind"] == "word":
         tags.append("pack=" + case["pack"])
     tags.append("found" if res.get("found") else "no_spec")
+    if res.get("extraction_error"):
+        tags.append("table_extraction_error:" + res["extraction_error"].split(":")[0])
     if res.get("extract") and res["extract"][5]:
         tags.append("uses_equivalence_paths")
     return tags
